@@ -584,12 +584,16 @@ class Ops:
                 if len(mono) == 1 and mono[0][1] == 1 and coef in (1, -1) and str(mono[0][0]).startswith(("len[", "len*[", "len~[")):
                     sym = str(mono[0][0])
                     atoms_txt = sym[sym.index("[") + 1:-1]
-                    if sym.startswith("len~["):
+                    if atoms_txt in ("?", ""):
+                        atoms_txt = None  # the length of a list nobody can name: not a question about a key collection
+                    if atoms_txt is None:
+                        pass
+                    elif sym.startswith("len~["):
                         atoms_txt = "~" + atoms_txt  # a FILTERED selection of the collection: it may be empty although the collection is not
-                    if coef == 1 and op in ("Eq", "NotEq", "Gt", "LtE"):
+                    if atoms_txt is not None and coef == 1 and op in ("Eq", "NotEq", "Gt", "LtE"):
                         nonempty = op in ("NotEq", "Gt")
                         return ("nonempty?" + atoms_txt, (not nonempty) ^ neg)
-                    if coef == -1 and op in ("Eq", "NotEq", "Lt", "GtE"):
+                    if atoms_txt is not None and coef == -1 and op in ("Eq", "NotEq", "Lt", "GtE"):
                         nonempty = op in ("NotEq", "Lt")
                         return ("nonempty?" + atoms_txt, (not nonempty) ^ neg)
             canon = {"NotEq": ("Eq", True), "GtE": ("Lt", True), "LtE": ("Gt", True)}.get(op, (op, False))
